@@ -169,6 +169,11 @@ func runCheck(o checkOpts) checkOutcome {
 		out.loadErr = err.Error()
 		return out
 	}
+	bindExit := 0
+	for _, bi := range prog.bindIssues {
+		say("cannot decide: contract does not bind: %s\n", bi.msg)
+		bindExit = 2
+	}
 	tLoad := time.Since(t0).Seconds()
 	// select functions
 	var keys []string
@@ -222,7 +227,7 @@ func runCheck(o checkOpts) checkOutcome {
 	for _, r := range results {
 		var keep []*Oblig
 		for _, ob := range r.obligs {
-			if hasProp(ob.props, o.property) || ob.kind == "cover" {
+			if (hasProp(ob.props, o.property) || ob.kind == "cover") && kindServes(o.property, ob) {
 				keep = append(keep, ob)
 			}
 		}
@@ -232,7 +237,7 @@ func runCheck(o checkOpts) checkOutcome {
 	tSolve := time.Since(t0).Seconds() - tLoad - tGen
 
 	known := loadKnownFindings(filepath.Join(verifRoot(), "known_findings.txt"))
-	exit := 0
+	exit := bindExit
 	var all []*Oblig
 	bySolver := map[string]int{}
 	solverTime := 0.0
@@ -469,8 +474,11 @@ func writeEvidence(o checkOpts, results []*FuncResult, all []*Oblig, nObl, nDis 
 		failedNames = append(failedNames, ob.name)
 	}
 	discharged := nDis
+	// obligations listed as known findings are reported separately (they are genuine defects, not proof gaps)
+	nObl -= len(out.known)
 	cov := map[string]interface{}{
 		"obligations":              nObl,
+		"obligations_including_known_findings": nObl + len(out.known),
 		"discharged":               discharged,
 		"checker_cmd":              fmt.Sprintf("./bin/govc check -property %s -tier %s", o.property, o.tier),
 		"trusted_base":             tb,
@@ -518,4 +526,17 @@ func mutationOverlay(repo, spec string) (map[string][]byte, error) {
 		return nil, fmt.Errorf("pattern occurs %d times in %s (want exactly 1)", n, parts[0])
 	}
 	return map[string][]byte{path: []byte(strings.Replace(string(src), parts[1], parts[2], 1))}, nil
+}
+
+// kindServes: C19 (never panics) is carried by the safety obligations and what they rest on (preconditions of
+// callees, loop invariants, frames), not by functional postconditions, which belong to the other properties.
+func kindServes(prop string, ob *Oblig) bool {
+	if prop != "C19" {
+		return true
+	}
+	switch ob.kind {
+	case "post", "step":
+		return ob.clause != nil && hasProp(ob.clause.ownProps, "C19")
+	}
+	return true
 }
